@@ -5,6 +5,7 @@ import (
 	"go/ast"
 	"go/format"
 	"go/parser"
+	"go/scanner"
 	"go/token"
 	"regexp"
 	"sort"
@@ -38,10 +39,26 @@ func normDecl(src string) string {
 // stripDirectives removes go:generate / build directive lines (which must be absent from the output) from a
 // gofmt-normalised declaration text, together with the bare "//" separator gofmt puts in front of them.
 func stripDirectives(txt string) string {
+	// only COMMENTS are directives: a line of that spelling inside a raw string or a block comment is content
+	src := "package p\n\n" + txt + "\n"
+	fset := token.NewFileSet()
+	tf := fset.AddFile("", fset.Base(), len(src))
+	var sc scanner.Scanner
+	sc.Init(tf, []byte(src), nil, scanner.ScanComments)
+	isDirective := map[int]bool{}
+	for {
+		pos, tok, lit := sc.Scan()
+		if tok == token.EOF {
+			break
+		}
+		if tok == token.COMMENT && strings.HasPrefix(lit, "//") && reBuildOrGenerate.MatchString(lit) {
+			isDirective[tf.Line(pos)-3] = true
+		}
+	}
 	lines := strings.Split(txt, "\n")
 	var out []string
-	for _, l := range lines {
-		if reBuildOrGenerate.MatchString(strings.TrimSpace(l)) {
+	for li, l := range lines {
+		if isDirective[li] && reBuildOrGenerate.MatchString(strings.TrimSpace(l)) {
 			// drop a separator line that only existed to set the directive apart
 			if n := len(out); n > 0 && strings.TrimSpace(out[n-1]) == "//" {
 				out = out[:n-1]
